@@ -230,6 +230,14 @@ class SSM(OneShotTask, DebugContents):
 
         return rslt
 
+    def is_final_ack(self, seqNum):
+        """Return true iff the segment ack acknowledges the last segment
+        of the message, an ack of an earlier segment of the final window is
+        a request to send the rest again."""
+        if _debug: SSM._debug("is_final_ack %r", seqNum)
+
+        return seqNum == ((self.segmentCount - 1) % 256)
+
     def fill_window(self, seqNum):
         """This function sends all of the packets necessary to fill
         out the segmentation window."""
@@ -463,7 +471,7 @@ class ClientSSM(SSM):
                 self.restart_timer(self.segmentTimeout)
 
             # final ack received?
-            elif self.sentAllSegments:
+            elif self.sentAllSegments and self.is_final_ack(apdu.apduSeq):
                 if _debug: ClientSSM._debug("    - all done sending request")
                 self.set_state(AWAIT_CONFIRMATION, self.apduTimeout)
 
@@ -1097,7 +1105,7 @@ class ServerSSM(SSM):
                 self.restart_timer(self.segmentTimeout)
 
             # final ack received?
-            elif self.sentAllSegments:
+            elif self.sentAllSegments and self.is_final_ack(apdu.apduSeq):
                 if _debug: ServerSSM._debug("    - all done sending response")
                 self.set_state(COMPLETED)
 
